@@ -4,7 +4,8 @@
    crate) on one StreamController's bookkeeping exactly as Step.step does. *)
 From Coq Require Import List ZArith Bool Arith.
 From RX Require Import Val Syntax Step Tear.
-From RXP Require Import TearInv.
+From RX Require Import World.
+From RXP Require Import TearInv SubjQuiet.
 Import ListNotations.
 
 (* Discipline, for the WHOLE catalogue (every operator, parameter, state, port, serial, event): a handler
@@ -59,3 +60,12 @@ Example C06_take_while_now :
   let s := tacts (snd (handler (OTakeWhile PFalse) PNever [] st0 0 0 0 (Nx (VInt 1)))) {| tn_es := [(0, (true, true))]; tn_next := 1; tn_alive := true; tn_lv := [] |} in
   tn_alive s = false /\ tn_es s = [(0, (false, false))].
 Proof. vm_compute. split; reflexivity. Qed.
+
+(* An observer that has already ended - e.g. because an earlier, synchronous input of the same operator ended the subscription - is
+   never handed to a source: nothing is subscribed for nobody, so there is nothing to release (Observable::inner_subscribe's guard). *)
+Theorem C06_dead_observer_subscribes_nothing :
+  forall p o w, is_sub (obs w o) = false -> step (SubscribePipe p o) w = ([], w).
+Proof. exact dead_observer_subscribes_nothing. Qed.
+Check C06_dead_observer_subscribes_nothing :
+  forall p o w, is_sub (obs w o) = false -> step (SubscribePipe p o) w = ([], w).
+Print Assumptions C06_dead_observer_subscribes_nothing.
